@@ -1,6 +1,7 @@
 import PrologVerif.Driver.Common
 import PrologVerif.Model.DCG
 import PrologVerif.Spec.Grammar
+import PrologVerif.Spec.DcgSLD
 namespace PrologVerif.Driver.C17
 open PrologVerif PrologVerif.Driver PrologVerif.DCG PrologVerif.Grammar
 
@@ -127,13 +128,22 @@ def parseCase (payload : String) : Except String Case :=
   | _ => .error "bad payload"
 
 /-- all sections of the output line, from the denotation -/
-def langLines (cfg : Cfg) (c : Case) : Except String (List String) := do
+def langLines (cfg : Cfg) (sld : Bool) (c : Case) : Except String (List String) := do
   let vars := (varsT c.start []).map Term.var
   let n0 := boundT c.start
   let rem := Term.var n0
   let st0 : St := { σ := [], next := n0 + 2 }
+  let prog := programOf c.gr
   let run := fun (l r template : Term) =>
-    match Grammar.phrase cfg c.gr denFuel c.body st0 l r with
+    let res : Res (List St) :=
+      if sld then
+        -- the reference SLD evaluation of the TRANSLATED grammar and body
+        let g := c.body.tr l r st0.next
+        match solve cfg.uf prog denFuel g.1 { st0 with next := g.2 } with
+        | .ok o => .ok o.answers
+        | .error e => .error e
+      else Grammar.phrase cfg c.gr denFuel c.body st0 l r
+    match res with
     | .error .fuel => Except.error "out of fuel"
     | .error (.unsupported w) => Except.error ("unsupported: " ++ w)
     | .ok sts => match showAnswers cfg template sts with
@@ -166,8 +176,9 @@ def handlerLang : Handler := fun payload impl =>
   match parseCase payload with
   | .error e => ("BAD-CASE " ++ e, "FAIL " ++ e)
   | .ok c =>
-    let iso := langLines { engine := false } c
-    let eng := langLines { engine := true } c
+    let iso := langLines { engine := false } false c
+    let eng := langLines { engine := true } false c
+    let sld := langLines { engine := false } true c
     let model := match eng with
       | .ok ls => " ; ".intercalate ls
       | .error e => "NO-MODEL " ++ e
@@ -175,7 +186,10 @@ def handlerLang : Handler := fun payload impl =>
     let v := match iso with
       | .error _ => "-"
       | .ok ls =>
-        if ls == implLs then "ok"
+        if sld.toOption.isSome && sld.toOption != some ls then
+          "FAIL SPEC-INCONSISTENT: the reference SLD evaluation of the translated grammar and the denotation disagree: " ++
+            firstDiffLine (sld.toOption.getD []) ls
+        else if ls == implLs then "ok"
         else if eng.toOption == some implLs then
           "FAIL [engine-cut-barrier] a cut inside a nested alternation or an if-then-else branch is local to it (ISO: it cuts the rule): " ++ firstDiffLine implLs ls
         else "FAIL answers differ from the denotation: " ++ firstDiffLine implLs ls
